@@ -59,8 +59,8 @@ ALL_DEVS = (DEV_SELSEND, DEV_FULLSEND, DEV_TRYSEL, DEV_SELSEL, DEV_SELPARK)
 
 def select_send_first(cases):
     """selectSendFirst of z_chan.go (channel index = address order)"""
-    snd = [c for (c, s_, _) in cases if s_]
-    rcv = [c for (c, s_, _) in cases if not s_]
+    snd = [c for (c, s_, _) in cases if s_ and c is not None]        # nil channels are skipped
+    rcv = [c for (c, s_, _) in cases if not s_ and c is not None]
     if not snd:
         return False
     if not rcv:
@@ -145,7 +145,9 @@ def go_outcomes(cfg, dev=frozenset(), limit=300000):
                     pi, parked = sub[i]
                     if pi < len(op[2]):
                         c, snd, v = op[2][pi]
-                        if parked:
+                        if c is None:
+                            pass
+                        elif parked:
                             receivers.setdefault(c, []).append((i, pi, True, True))
                         elif snd:
                             senders.setdefault(c, []).append((i, v, pi, False, False))
@@ -154,6 +156,8 @@ def go_outcomes(cfg, dev=frozenset(), limit=300000):
                     receivers.setdefault(op[2][sub[i][0]][0], []).append((i, sub[i][0], True, True))
                     continue
                 for k, (c, snd, v) in enumerate(op[2]):
+                    if c is None:
+                        continue                     # nil channel: the case is permanently disabled
                     if snd:
                         senders.setdefault(c, []).append((i, v, k, op[1], posted[i]))
                     else:
@@ -192,6 +196,9 @@ def go_outcomes(cfg, dev=frozenset(), limit=300000):
                     succ.append(adv(st, i, "D"))
                     continue
                 c, snd, v = op[2][pi]
+                if c is None:
+                    succ.append(nxt)              # nil channel: skipped
+                    continue
                 buf, closed = ch[c]
                 if parked:
                     if closed:
@@ -235,7 +242,7 @@ def go_outcomes(cfg, dev=frozenset(), limit=300000):
                     continue
                 if op[1] and DEV_SELPARK in dev:
                     for k, (c, snd, v) in enumerate(op[2]):
-                        if snd or caps[c] != 0 or ch[c][1]:
+                        if c is None or snd or caps[c] != 0 or ch[c][1]:
                             continue
                         counted = any(j != i and blk and pk for (j, _, _, blk, pk) in senders.get(c, [])) or \
                             any(j != i and o[0] == "S" and o[1] and any(cc == c and sd for (cc, sd, _) in o[2])
@@ -244,6 +251,8 @@ def go_outcomes(cfg, dev=frozenset(), limit=300000):
                             succ.append((pos, ch, rs, upd(posted, i, True), upd(sub, i, (k, True))))
                 any_enabled = False
                 for k, (c, snd, v) in enumerate(op[2]):
+                    if c is None:
+                        continue
                     buf, closed = ch[c]
                     if snd:
                         if closed:
@@ -425,7 +434,8 @@ def judge_final(cfg, st, ref):
                 # a select returned although ANOTHER of its receive cases had been handed a value
                 k = int(r.split("!")[1].split("/")[0])
                 op = progs[t][idx] if idx < len(progs[t]) else None
-                if op is not None and op[0] == "S" and k < len(op[2]) and st["chans"][op[2][k][0]][1] and caps[op[2][k][0]] == 0:
+                if op is not None and op[0] == "S" and k < len(op[2]) and op[2][k][0] is not None and \
+                        st["chans"][op[2][k][0]][1] and caps[op[2][k][0]] == 0:
                     return ([KEY_CLOSE], "value handed to case %d of thread %d's select, channel closed before the receiver looked: value lost" % (k, t))
                 return ([], "stray delivery without close")
             if r[0] == "R" and r.endswith("/0") and r != "R0/0":
@@ -475,7 +485,7 @@ def judge_steps(cfg, states):
                 sent_vals[op[1]].add(op[2])
             elif op[0] == "S":
                 for (c, snd, v) in op[2]:
-                    if snd:
+                    if snd and c is not None:
                         sent_vals[c].add(v)
     bad = []
     prev = None
@@ -540,7 +550,8 @@ def rand_cfg(rng, nch, maxcap, nth, maxops, psel=0.3):
                 cases = []
                 for _ in range(ncase):
                     snd = rng.random() < 0.5
-                    cases.append((rng.randrange(nch), snd, nv() if snd else 0))
+                    cch = None if rng.random() < 0.12 else rng.randrange(nch)       # nil-channel case
+                    cases.append((cch, snd, nv() if snd else 0))
                 ops.append(("S", rng.random() < 0.6, tuple(cases)))
         progs.append(ops)
     return (caps, progs)
@@ -573,6 +584,19 @@ def systematic_cfgs():
         out.append(([cap], [[("S", False, ((0, False, 0),))], [("s", 0, 5)]]))
         out.append(([cap], [[("c", 0)], [("S", True, ((0, False, 0),))], [("r", 0)]]))
     out.append(([0, 1], [[("S", True, ((0, True, 4),))], [("r", 0), ("S", True, ((0, False, 0), (1, True, 5)))]]))
+    # non-blocking select with a not-ready send case on a lower channel and a receive case served by a select-sender
+    out.append(([0, 0, 0], [[("S", False, ((0, True, 1), (1, False, 0)))], [("S", True, ((1, True, 7), (2, False, 0)))]]))
+    out.append(([0, 0], [[("S", False, ((0, True, 1), (1, False, 0)))], [("S", True, ((1, True, 7),))]]))
+    out.append(([0, 0], [[("S", False, ((1, False, 0), (1, True, 1)))], [("S", True, ((1, True, 7),))]]))
+    out.append(([0], [[("S", False, ((0, True, 1),))], [("S", True, ((0, False, 0),))]]))
+    # nil-channel cases next to live ones, on both sides of a rendezvous
+    out.append(([0, 0], [[("S", True, ((None, True, 5), (0, False, 0)))], [("S", True, ((0, True, 7), (1, False, 0)))]]))
+    out.append(([0, 0], [[("S", True, ((None, True, 5), (0, False, 0)))], [("s", 0, 7)]]))
+    out.append(([0, 0], [[("S", True, ((0, True, 1), (1, False, 0), (None, False, 0)))],
+                        [("S", True, ((1, True, 2), (0, False, 0), (None, False, 0)))]]))
+    out.append(([0], [[("S", True, ((None, False, 0), (0, True, 3)))], [("S", True, ((0, False, 0), (None, True, 9)))]]))
+    out.append(([1], [[("S", False, ((None, True, 4), (0, False, 0), (None, False, 0)))], [("s", 0, 6)]]))
+    out.append(([0], [[("S", False, ((None, False, 0),))], [("S", True, ((None, True, 1),)), ]]))
     for c0, c1 in ((0, 0), (0, 1), (1, 1), (2, 0)):
         out.append(([c0, c1], [[("S", True, ((0, False, 0), (1, False, 0)))], [("s", 0, 7)], [("s", 1, 8)]]))
         out.append(([c0, c1], [[("S", True, ((0, True, 5), (1, False, 0)))], [("S", True, ((0, False, 0), (1, True, 6)))]]))
@@ -637,6 +661,70 @@ def detect_variant(ctx, real, corpus):
     return v
 
 
+KEY_NBSEND = "select:nonblocking-send-misses-parked-select-receiver"
+
+
+def judge_defaults(cfg, states):
+    """Real-time rule for `select { ... default: }` (independent of the model, uses the ORDER of the observed states):
+    a non-blocking select that returned `default` although one of its cases was ready during its WHOLE execution.
+    states: [(line index, parsed state)].  A case is ready throughout when, in every state from the one in which
+    the select started to the one before it returned:
+      buffered channel  - receive: the buffer is non-empty (or the channel closed); send: open and len < cap;
+      unbuffered channel - closed (receive), or: open and some other thread is ASLEEP in Cond.Wait the whole time
+                           (and still pending when the select returns) in a plain operation or a blocking select
+                           with the complementary case on that channel.
+    Returns [(key or None, why, index of the state in which the select returned)]."""
+    caps, progs = cfg
+    out = []
+    for m, prog in enumerate(progs):
+        for k, op in enumerate(prog):
+            if op[0] != "S" or op[1]:
+                continue
+            i_end = next((i for i, (_, st) in enumerate(states) if len(st["threads"][m][1]) > k), None)
+            if i_end is None or not states[i_end][1]["threads"][m][1][k].startswith("D"):
+                continue
+            i_start = next((i for i, (_, st) in enumerate(states) if len(st["threads"][m][1]) == k), None)
+            if i_start is None or i_start >= i_end:
+                continue
+            win = [st for (_, st) in states[i_start:i_end]]
+            st_end = states[i_end][1]
+            for j, (c, snd, v) in enumerate(op[2]):
+                if c is None:
+                    continue
+                key, why = None, None
+                if all(w["chans"][c][1] for w in win):
+                    if snd:
+                        key, why = DEV_SELSEND, "send case %d on a channel that is closed the whole time" % j
+                    else:
+                        why = "receive case %d on a channel that is closed the whole time" % j
+                elif caps[c] > 0:
+                    if snd and all((not w["chans"][c][1]) and w["chans"][c][0] < caps[c] for w in win):
+                        why = "send case %d: the buffer has room the whole time" % j
+                    elif not snd and all(w["chans"][c][0] > 0 for w in win):
+                        why = "receive case %d: the buffer is non-empty the whole time" % j
+                elif all(not w["chans"][c][1] for w in win + [st_end]):
+                    for pth, pprog in enumerate(progs):
+                        if pth == m:
+                            continue
+                        nres = len(win[0]["threads"][pth][1])
+                        if nres >= len(pprog) or any(len(w["threads"][pth][1]) != nres or pth not in w["W"] for w in win) \
+                                or len(st_end["threads"][pth][1]) != nres:
+                            continue
+                        pop = pprog[nres]
+                        comp = (pop[0] == ("r" if snd else "s") and pop[1] == c) or \
+                            (pop[0] == "S" and pop[1] and any(cc == c and sd != snd for (cc, sd, _) in pop[2]))
+                        if comp:
+                            why = "%s case %d on unbuffered channel %d while thread %d sleeps the whole time in %s" % (
+                                "send" if snd else "receive", j, c, pth, op_tok(pop))
+                            if snd and pop[0] == "S":
+                                key = KEY_NBSEND
+                            break
+                if why:
+                    out.append((key, "thread %d: `%s` returned default although a case was ready throughout: %s" % (m, op_tok(op), why), i_end))
+                    break
+    return out
+
+
 class Judge:
     def __init__(self, ctx):
         self.ctx = ctx
@@ -649,6 +737,7 @@ class Judge:
         """judge the REAL output of one script (config lines already stripped)"""
         ctx = self.ctx
         states = []
+        indexed = []
         for k, line in enumerate(out_lines):
             if line in ("ok", "bad-step"):
                 continue
@@ -656,6 +745,7 @@ class Judge:
             if st is None:
                 continue            # a malformed line shows up as a correspondence mismatch
             states.append(st)
+            indexed.append((k, st))
             if not st["R"]:
                 key = (cfg_str(cfg), line.split(" ", 1)[1] if line[0] in "ts" else line)
                 if key in self.judged:
@@ -679,6 +769,22 @@ class Judge:
                         if len(ctx.violations) < 25:
                             ctx.report("final-state-not-allowed-by-go: " + cfg_str(cfg) + " => " + key[1], why, replay)
         self.stats["step_states_checked"] += len(states)
+        if any(op[0] == "S" and not op[1] for p_ in cfg[1] for op in p_):
+            for (kk, why, i_end) in judge_defaults(cfg, indexed):
+                dkey = (cfg_str(cfg), kk, why)
+                if dkey in self.judged:
+                    continue
+                self.judged.add(dkey)
+                self.stats["spec_failures"] += 1
+                replay = {"config": cfg_lines(cfg)[2:], "schedule": sched_lines_[:indexed[i_end][0] + 1],
+                          "real_state": out_lines[indexed[i_end][0]], "why": why}
+                if kk:
+                    self.stats["by_class"][kk] = self.stats["by_class"].get(kk, 0) + 1
+                    ctx.report(kk, why, replay)
+                else:
+                    self.stats["by_class"]["DEFAULT-ALTHOUGH-READY"] = self.stats["by_class"].get("DEFAULT-ALTHOUGH-READY", 0) + 1
+                    if len(ctx.violations) < 25:
+                        ctx.report("default-although-ready: " + cfg_str(cfg) + " => " + why, why, replay)
         for b in judge_steps(cfg, states):
             self.stats["spec_failures"] += 1
             if len(ctx.violations) >= 25:
